@@ -34,6 +34,16 @@ TEXTS = {
         "note": TB,
         "technique": 'Lean 4 proof (handler-level, all fault plans) + co-simulation with a per-action unfinished-run counter',
     },
+    'C11': {
+        "text": "Kernel-checked over the engine model: losing the role changes no run, outbox entry, stream entry, cursor, timer or error counter and no other process (for every parking state and process kind) and sends the process back to asking for its role with its receiver closed; "
+                "a failing operation never ends the process (back-off, or the role again when the lease is gone) and from back-off it only asks for the role again; no parking state is a dead end (after a finite wait a step is enabled, or the process idles at an empty stream). "
+                "Role scheduler contract RefRoles: in EVERY reachable state no role has two live holders (induction over request/grant/cancel sequences); a grant while held is refused; a cancelled holder frees the role. "
+                "Ties and runtime clauses: co-simulation with a lease monitor on every adapter call, adapter-call-after-Stop, process-not-shutdown-after-Stop, receiver/sender closed (simulator); mem-roles monitors the real memrolescheduler under concurrent Await calls against RefRoles; "
+                "live-supervise runs the real workflow (sharded step, callback, timeout, connector, hook; injected adapter failures; two instances) on real goroutines and checks no process ends before Stop, Stop waits, nothing is called afterwards, everything opened is closed, Run is idempotent - "
+                "and again in a binary built with the Go race detector; pure-launch checks that Run registered every process when it returns.",
+        "note": TB + "PARTIAL for the runtime clauses: goroutine interleavings, context propagation and data races are not expressible in the Lean model; they are exercised (race detector, real goroutines), not proved.",
+        "technique": "Lean 4 proof (frame and supervision theorems over the engine model; mutual exclusion invariant of the role-scheduler contract) + co-simulation with lease/stop monitors + concurrent monitoring of memrolescheduler + race-detector runs",
+    },
     'C12': {
         "text": "Kernel-checked: the poller reaches a timeout function only for the timer's OWN run (lookup by run ID, since fix F10), still at the status, neither finished nor stopped; moved-on runs get exactly that timer cancelled; timers created only for non-zero times; "
                 "a successful timeout completes its timer, a failing one leaves it for later polls. Store clauses proved on the contract RefTimeouts: due iff workflow/status match, not completed, not cancelled, expired before the instant (either answer AT the instant); "
@@ -114,7 +124,7 @@ TEXTS = {
 }
 
 NOT_APPLICABLE = {p: "check under construction in this session; will be claimed once its theorems and tie exist" for p in
-                  ["C01", "C11", "C20"]}
+                  ["C01", "C20"]}
 
 NOTES = ("One engine: Lean 4 model + theorems, regenerated facts (T1/T2), co-simulation (T3). ./check <id> quick|thorough; ./check replay <path>. "
          "known-findings.json lists genuine defects that are recorded rather than repaired.")
